@@ -23,6 +23,8 @@ type ReplayFile struct {
 	Trace     []string   `json:"abstract_trace,omitempty"`
 	Log       []string   `json:"event_log,omitempty"`
 	Runs      int        `json:"shrink_runs,omitempty"`
+	Forced    map[string]string `json:"forced,omitempty"`
+	Enum      bool       `json:"enum,omitempty"`
 }
 
 func hasSig(res *RunResult, prop, sig string) *Violation {
@@ -51,8 +53,31 @@ func TestReplay(t *testing.T) {
 		t.Fatal(err)
 	}
 	os.Setenv("KSIM_TIER", rf.Tier)
+	var forced map[int]string
+	if len(rf.Forced) > 0 {
+		forced = map[int]string{}
+		for k, v := range rf.Forced {
+			n, _ := strconv.Atoi(k)
+			forced[n] = v
+		}
+	}
+	var mut func(sc *Scenario, cfg *Config)
+	if rf.Enum {
+		mut = enumQuiet(rf.Check)
+	}
+	var baseDigest string
+	if rf.Enum && forced != nil {
+		baseDigest = RunOne(t, ReplayTape(rf.Choices), rf.Seed, RunOpts{Property: rf.Check, Mutate: mut}).Digest
+	}
 	run := func(ch []uint32, keep bool) *RunResult {
-		return RunOne(t, ReplayTape(ch), rf.Seed, RunOpts{Property: rf.Check, KeepLog: keep})
+		res := RunOne(t, ReplayTape(ch), rf.Seed, RunOpts{Property: rf.Check, KeepLog: keep, Mutate: mut, Forced: forced})
+		if baseDigest != "" && res.Digest != baseDigest && res.EndReason == "quiescent" {
+			for j, kind := range forced {
+				res.Violations = append(res.Violations, Violation{Property: "C06", Oracle: "D1-final-state", Sig: "D1/" + res.Scenario.Family + "/" + kind + "|ev=", Seq: uint64(j),
+					Detail: "terminal cluster state differs from the undisturbed run: " + res.Digest + " vs " + baseDigest})
+			}
+		}
+		return res
 	}
 	res := run(rf.Choices, false)
 	v := hasSig(res, rf.Property, rf.Signature)
@@ -62,7 +87,7 @@ func TestReplay(t *testing.T) {
 	}
 	best := append([]uint32(nil), rf.Choices...)
 	runs := 1
-	if out := os.Getenv("KSIM_SHRINK_OUT"); out != "" && !rf.Minimised {
+	if out := os.Getenv("KSIM_SHRINK_OUT"); out != "" && !rf.Minimised && !rf.Enum {
 		budget, _ := strconv.ParseFloat(os.Getenv("KSIM_SHRINK_S"), 64)
 		if budget <= 0 {
 			budget = 60
